@@ -261,6 +261,12 @@ func (g *c02) der(op, tag string, der []byte, spec Sx) {
 			e.framed = pem.EncodeToMemory(&pem.Block{Type: d.pem, Bytes: der})
 		}
 		g.valid = append(g.valid, e)
+		if d.pem != "" && op != "ecparams" && len(g.valid)%4 == 0 {
+			// the same DER as a bare file (ASN1File tries the key parsers in turn)
+			raw := e
+			raw.fname, raw.framed, raw.tag = "key.der", der, tag+"-raw"
+			g.valid = append(g.valid, raw)
+		}
 	}
 }
 
@@ -928,7 +934,7 @@ func mutate(r *Rng, d []byte) []byte {
 	case 3:
 		if len(d) >= 4 {
 			off := r.Intn(len(d) - 3)
-			if r.Bool() && len(d) > 80 {
+			if r.Bool() && len(d) > 84 {
 				off = r.Intn(80)
 			}
 			binary.BigEndian.PutUint32(d[off:], boundary32[r.Intn(len(boundary32))])
@@ -1097,6 +1103,17 @@ func genC02(c *Ctx) {
 	g.der("spki", "dsa-no-params", derSeq(derSeq(derOID(oidDSA...)), derBits(derInt(randBits(r, 1000, 4)))), noSpec)
 	g.der("sec1", "no-params", sec1(genEC(r, 256), false, false), noSpec)
 	g.der("spki", "ec-unknown-curve", derSeq(derSeq(derOID(oidECPub...), derOID(1, 3, 36, 3, 3, 2, 8, 1, 1, 7)), derBits(r.Bytes(65))), noSpec)
+	// explicit parameters with an empty base point (F5, C16's: the curve matcher indexes Base[0])
+	{
+		k := genEC(r, 256)
+		p := k.curve.Params()
+		a := new(big.Int).Sub(p.P, big.NewInt(3))
+		bad := derSeq(derSmall(1), derSeq(derOID(oidPrime...), derInt(p.P)), derSeq(derOctets(a.FillBytes(make([]byte, 32))), derOctets(p.B.FillBytes(make([]byte, 32)))),
+			derOctets(nil), derInt(p.N), derSmall(1))
+		g.der("ecparams", "empty-base", bad, noSpec)
+		g.der("spki", "ec-explicit-empty-base", derSeq(derSeq(derOID(oidECPub...), bad), derBits(k.point)), noSpec)
+		g.der("sec1", "explicit-empty-base", derSeq(derSmall(1), derOctets(k.d), derExplicit(0, bad)), noSpec)
+	}
 	// negative and zero moduli: the size is that of the absolute value
 	g.der("pkcs1pub", "negative", derSeq(derInt(new(big.Int).Neg(randBits(r, 1000, 4))), derSmall(3)), noSpec)
 	g.der("pkcs1pub", "zero", derSeq(derSmall(0), derSmall(3)), noSpec)
